@@ -31,7 +31,10 @@ def _myround(number_to_round, decimal_places):
         return number_to_round + abs(number_to_round) / number_to_round * 0.5  # simulate Python 2 rounding
         # via https://stackoverflow.com/questions/21839140/
         # python-3-rounding-behavior-in-python-2
-    rounded_number = round(number_to_round, int(decimal_places))
+    # a double has no more than ~330 decimal places on either side: more digits change nothing,
+    # but round() would first compute 10**digits
+    decimal_places = max(-400, min(400, int(decimal_places)))
+    rounded_number = round(number_to_round, decimal_places)
     if int(rounded_number) == rounded_number:
         return int(rounded_number)
     return rounded_number
